@@ -172,7 +172,7 @@ def build_input(case):
         present = case["present"]
     if abs(case.get("scale_exp", 0)) >= 20 and dt in ("f32", "c64"):
         # keep float32 data inside its exponent range: 10^+-20 -> 10^+-4, 10^+-170 -> 10^+-25 (squares leave the range)
-        e_ = 4 if abs(case["scale_exp"]) == 20 else 25
+        e_ = 4 if abs(case["scale_exp"]) == 20 else (25 if abs(case["scale_exp"]) == 170 else 40)     # 1e-40: denormal in float32
         case = dict(case, scale_exp=e_ if case["scale_exp"] > 0 else -e_)
     if case.get("scale_exp", 0) and fam != "c":
         A = A * (10.0 ** case["scale_exp"])
